@@ -12,7 +12,7 @@ package stack
 //	fam 2: frame function, file, line         (no args)
 //	fam 3: creator: none, one frame or a chain of two; function/line of each (one constant frame)
 //	fam 4: location class / main flag         (ordering; no args)
-//	fam 5: args: too-large marker ("_", value 0 as parsed), small values, elision
+//	fam 5: args: too-large marker ("_", value 0 as parsed), inaccurate marker ("?"), small values, elision
 //	fam 6: args: named pointers (name is a function of the value, as nameArguments leaves them)
 //	fam 7: args: source-processed rendering (Args.Processed is a function of the call site and the values, as augmentation leaves it)
 //
@@ -41,6 +41,8 @@ func vhArg(tag string, fam int) Arg {
 		// as the parser produces them: "_" carries no value
 		a.IsOffsetTooLarge = vBool(tag + ".toolarge")
 		a.Value = uint64(vIte(a.IsOffsetTooLarge, 0, int(vByte(tag+".v"))))
+		// "?" marks a value the runtime could not read reliably; it goes with a value
+		a.IsInaccurate = vAnd(vBool(tag+".inaccurate"), vNot(a.IsOffsetTooLarge))
 	case famNames:
 		// as nameArguments leaves them: pointers carry a pseudo-name that is a
 		// function of the value
@@ -596,4 +598,54 @@ func vhCloneArgs(v []Arg) []Arg {
 		}
 	}
 	return out
+}
+
+// VH_Agg_Partition4: the partition on four goroutines (the fewest for the
+// arrival order A1, B, A2, A3 with pairwise unequal A's) for the sleep/lock/state
+// family at two levels.
+//
+//verif:prop C04
+//verif:param k 4
+//verif:param fam 0
+//verif:param level quick=1 thorough=1,3
+//verif:param nf 1
+//verif:param nfLast 1
+//verif:param perm quick=0 thorough=0,23
+//verif:summarize (*Signature).similar (*Signature).equal (*Signature).less (*Stack).less
+//verif:replay-iters 200
+func VH_Agg_Partition4(k, fam, level, nf, nfLast, perm int) {
+	VH_Agg_Partition(k, fam, level, nf, nfLast, perm)
+}
+
+// VH_Agg_FirstAnywhere: the First flag follows the first goroutine wherever it
+// stands in a (hand-built) snapshot, also when it joins a bucket opened by an
+// earlier goroutine.
+//
+//verif:prop C04
+//verif:param fi 0..2
+//verif:param fam 0,1
+//verif:param level 0..3
+//verif:summarize (*Signature).similar (*Signature).equal (*Signature).less (*Stack).less
+//verif:replay-iters 50
+func VH_Agg_FirstAnywhere(fi, fam, level int) {
+	s := vhSnapshot(3, fam, 1, 1, 0)
+	for i, g := range s.Goroutines {
+		g.First = i == fi
+	}
+	a := s.Aggregate(Similarity(level))
+	vReach("aggregated with the first goroutine at any index")
+	nFirst := 0
+	for _, b := range a.Buckets {
+		has := false
+		for _, id := range b.IDs {
+			if id == s.Goroutines[fi].ID {
+				has = true
+			}
+		}
+		vAssert(b.First == has, "the bucket flagged First is the one holding the first goroutine")
+		if b.First {
+			nFirst++
+		}
+	}
+	vAssert(nFirst == 1, "exactly one bucket is flagged First")
 }
